@@ -81,6 +81,23 @@ def gen_env(rng, sym, complex_names):
     return env
 
 
+def zero_divisors(mdl):
+    """names that occur as the divisor of a safe_div(.., name) in a declared string of the model"""
+    import re
+    out = []
+    strs = []
+    for coll in (mdl.states, mdl.algebs, mdl.services, mdl.states_ext, mdl.algebs_ext):
+        for it in coll.values():
+            strs += [getattr(it, a, None) for a in ('e_str', 'v_str')]
+    for blk in mdl.blocks.values():
+        for it in getattr(blk, 'vars', {}).values():
+            strs += [getattr(it, a, None) for a in ('e_str', 'v_str')]
+    for t in strs:
+        if isinstance(t, str) and 'safe_div' in t:
+            out += re.findall(r'safe_div\([^,()]*(?:\([^()]*\))?[^,()]*,\s*([A-Za-z_][A-Za-z_0-9]*)\s*\)', t)
+    return sorted(set(out))
+
+
 def call_loaded(func, args, env, sym, complex_names):
     import numpy as np
     vals = []
@@ -128,6 +145,12 @@ def numeric_stream(ctx, nenv):
             continue
         sym, cx = g['sym'], set(g['complex'])
         envs = [gen_env(ctx.rng, sym, cx) for _ in range(nenv)]
+        # the zero-divisor branch of safe_div: one more point per divisor, with that divisor exactly zero
+        for zn in zero_divisors(m):
+            if zn in sym:
+                e = gen_env(ctx.rng, sym, cx)
+                e[sym[zn]] = 0.0
+                envs.append(e)
         env_txt = ' ; '.join(','.join(C.f2h(v) for v in e) if e else '-' for e in envs)
         for fn in g['functions']:
             func = loaded_function(m, fn['fn'])
